@@ -305,6 +305,48 @@ def _batch_child(emit, indices):
     return len(indices)
 
 
+def _sequence_child(emit, items):
+    """several stored images loaded one after the other in ONE process (items: explicit images)"""
+    for k, it in enumerate(items):
+        rec = exec_image(core.unb64(it["image_b64"]), it["name"], it["fast_load"], it["get_code"],
+                         bool(it.get("count_steps")), tag="q")
+        emit({"k": k, "o": rec["outcome"], "v": rec["violation"], "s": rec.get("site")})
+    return len(items)
+
+
+def run_sequence(items, wall=None):
+    """Returns the violation of the LAST item when the items are loaded in sequence in a fresh fork of the
+    zygote (None when clean).  A death of the process while item k is in progress is reported for item k."""
+    got = []
+    flog = os.path.join(W["rundir"], "fault-seq-%d.log" % os.getpid())
+    r = core.fork_call(_sequence_child, (items,), timeout=wall or (60.0 + 5.0 * len(items)), stream=True,
+                       on_record=got.append, faultlog_path=flog, quiet=True)
+    try:
+        os.unlink(flog)
+    except OSError:
+        pass
+    if r.status == "error":
+        raise core.HarnessError("sequence child failed: %s" % (r.value,))
+    last = len(items) - 1
+    if r.status == "ok":
+        for c in got:
+            if c["k"] == last:
+                return c["v"]
+        return None
+    done = len(got)
+    if done != last:
+        return None  # died earlier than the item we are asking about
+    if r.status == "signal":
+        return {"class": "crash", "signal": int(r.signal), "fast_path": False, "site": _fault_site(r.faultlog),
+                "in_sequence": True}
+    return {"class": "stall", "site": _fault_site(r.faultlog), "in_sequence": True}
+
+
+def _item_of(plan):
+    return {"image_b64": core.b64(plan.image), "name": plan.name, "fast_load": plan.fast_load,
+            "get_code": plan.get_code, "run_index": plan.index, "count_steps": bool(plan.count_steps)}
+
+
 def _single_child(image_b64, name, fast_load, get_code, count_steps, marker):
     if marker:
         audit.STATE.marker_fd = os.open(marker, os.O_WRONLY | os.O_CREAT | os.O_TRUNC, 0o600)
@@ -427,7 +469,7 @@ def run_shard(shard):
                 rec = run_single_image(p.image, p.name, p.fast_load, p.get_code, True)
                 c2 = _compact(p, rec)
                 if c2.get("v") is None:
-                    agg["anomalies"].append({"i": c["i"], "batch_violation": c["v"], "isolated": "clean"})
+                    c2 = _sequence_verdict(agg, batch, c["i"], c2, {"batch_violation": c["v"]})
                 account(agg, c2, p)
             else:
                 account(agg, c, None)
@@ -445,11 +487,33 @@ def run_shard(shard):
             rec = run_single_image(p.image, p.name, p.fast_load, p.get_code, True)
             c2 = _compact(p, rec)
             if c2.get("v") is None:
-                agg["anomalies"].append({"i": culprit, "batch_status": r.status, "isolated": "clean"})
+                c2 = _sequence_verdict(agg, batch, culprit, c2, {"batch_status": r.status})
             account(agg, c2, p)
             pending = rest[1:] + pending
     agg["wall"] = time.time() - t0
     return agg
+
+
+def _sequence_verdict(agg, batch, culprit, c2, why):
+    """A run misbehaved inside its batch but is clean alone: the loads that preceded it in the same process
+    matter.  Re-execute that prefix in a fresh fork; if the last load misbehaves again this is a genuine
+    multi-step violation (state leaked between calls), otherwise a harness anomaly."""
+    prefix = [i for i in batch if i <= culprit] if culprit in batch else [culprit]
+    prefix = batch[:batch.index(culprit) + 1] if culprit in batch else [culprit]
+    items = [_item_of(plan_run(i)) for i in prefix]
+    v = run_sequence(items)
+    if v is None:
+        d = {"i": culprit, "isolated": "clean", "sequence": "clean"}
+        d.update(why)
+        agg["anomalies"].append(d)
+        return c2
+    v = dict(v)
+    v["in_sequence"] = True
+    v["sequence"] = prefix
+    c2 = dict(c2)
+    c2["v"] = v
+    c2["o"] = "sequence:" + v["class"]
+    return c2
 
 
 def new_agg():
@@ -542,6 +606,8 @@ def signature(v):
     c = v["class"]
     if c == "exception":
         return {"class": c, "exc": v["exc"], "site": v["site"]}
+    if v.get("in_sequence"):
+        return {"class": c, "in_sequence": True}
     if c in ("crash", "memory"):
         return {"class": c, "fast_path": bool(v.get("fast_path"))}
     if c in ("not_prompt", "stall"):
@@ -697,7 +763,7 @@ TIERS = {
 
 def _replay_path(master, tag):
     os.makedirs(core.REPLAY_DIR, exist_ok=True)
-    return os.path.join(core.REPLAY_DIR, "C11-%d-%s.json" % (master, tag))
+    return os.path.join(core.REPLAY_DIR, "C11-%d-py%d%d-%s.json" % (master, sys.version_info[0], sys.version_info[1], tag))
 
 
 def _pred_for(sig, name, fast_load, get_code):
@@ -709,6 +775,37 @@ def _pred_for(sig, name, fast_load, get_code):
         return v is not None and sig_key(signature(v)) == want
 
     return pred
+
+
+def _report_sequence(master, k, sig, x, group, out_lines, evidence_v):
+    from sim import minimise
+
+    items = x["sequence"]
+    want = k
+
+    def fails(prefix_items):
+        seq = list(prefix_items) + [items[-1]]
+        v = run_sequence(seq)
+        return v is not None and sig_key(signature(dict(v, in_sequence=True))) == want
+
+    budget = minimise.Budget(60)
+    keep = items[:-1]
+    info = {"strategy": ["not minimised"], "tests": 0}
+    if fails(keep):
+        keep = minimise.ddmin_list(keep, fails, budget)
+        info = {"strategy": ["ddmin over the loads preceding the failing one: %d -> %d" % (len(items) - 1, len(keep))],
+                "tests": budget.tests}
+    seq = list(keep) + [items[-1]]
+    tag = "%s-%d" % (core.sha256_hex(k.encode())[:8], len(evidence_v["replays"]))
+    path = _replay_path(master, tag)
+    core.write_json_atomic(path, {
+        "property": PROP, "master_seed": master, "origin": x.get("origin"), "signature": sig, "violation": x["v"],
+        "sequence": seq, "minimisation": info, "instances_in_run": len(group),
+        "host": "%d.%d.%d" % sys.version_info[:3]})
+    evidence_v["replays"].append(path)
+    out_lines.append("VIOLATION property=%s replay=%s" % (PROP, path))
+    core.log("  class %s: %s (sequence of %d loads in one process, %d instance(s))" % (k, x["v"], len(seq), len(group)))
+    return 1
 
 
 def replay_witnesses(findings):
@@ -757,6 +854,9 @@ def report_violations(master, viols, findings, out_lines, evidence_v):
             continue
         n_unknown += 1
         x = min(group, key=lambda g: len(g["image"]))
+        if x.get("sequence"):
+            _report_sequence(master, k, sig, x, group, out_lines, evidence_v)
+            continue
         pred = _pred_for(sig, x["name"], x["fast_load"], x["get_code"])
         img = x["image"]
         info = {"strategy": ["not minimised"], "tests": 0}
@@ -801,9 +901,15 @@ def replay(path):
     audit.install()
     rr = core.fork_call(_magic_table_child, timeout=60)
     W["host_magic"] = rr.value["host"] if rr.status == "ok" else None
-    img = core.unb64(r["image_b64"])
-    rec = run_single_image(img, r["name"], r["fast_load"], r["get_code"], True)
-    v = rec.get("violation")
+    if r.get("sequence"):
+        v = run_sequence(r["sequence"])
+        if v is not None:
+            v = dict(v, in_sequence=True)
+        rec = {"outcome": "sequence:" + (v["class"] if v else "clean")}
+    else:
+        img = core.unb64(r["image_b64"])
+        rec = run_single_image(img, r["name"], r["fast_load"], r["get_code"], True)
+        v = rec.get("violation")
     want = sig_key(r["signature"])
     if v is not None and sig_key(signature(v)) == want:
         print("reproduced: %s" % (v,))
@@ -841,6 +947,7 @@ def collect_violations(tot, sweep):
         base = W["bases"][p.base_index].data if p.base_index >= 0 else None
         viols.append({"v": x["v"], "image": p.image, "name": p.name, "fast_load": p.fast_load,
                       "get_code": p.get_code, "base": base,
+                      "sequence": [_item_of(plan_run(i)) for i in x["v"]["sequence"]] if x["v"].get("sequence") else None,
                       "origin": {"run_index": x["i"], "run_seed": p.seed, "base": p.base_desc, "faults": p.faults}})
     for x in sweep["violations"]:
         k = sig_key(signature(x["v"]))
